@@ -321,6 +321,10 @@ func PoolForeign(pw *poolWriter, rng *rand.Rand, ty string) int {
 // Get returns and BEFORE Put is called, so sorting by ticket orders every Put before the Get that
 // reuses its buffer. Goroutines share nothing but the ticket counter (no harness lock that could
 // hide a race from the race detector); identities are assigned from pointer equality at merge time.
+// pairs: every goroutine always keeps two buffers checked out (get a, get b, put a, put b) in a tight loop and
+// shares the allocator by pointer (the pattern that exposes a free list that mishandles interleaved pops and pushes).
+var poolPairs bool
+
 func PoolConcurrent(pw *poolWriter, seed int64, ty string, ch, l, k, G, M, procs int, gc bool) (gets, reuses int) {
 	old := runtime.GOMAXPROCS(procs)
 	defer runtime.GOMAXPROCS(old)
@@ -348,9 +352,9 @@ func PoolConcurrent(pw *poolWriter, seed int64, ty string, ch, l, k, G, M, procs
 		go func(g int) {
 			defer wg.Done()
 			rng := rand.New(rand.NewSource(seed*1000 + int64(g)))
-			byValue := g%2 == 0
+			byValue := g%2 == 0 && !poolPairs
 			pool := pool
-			if g%4 == 0 {
+			if g%4 == 0 && !poolPairs {
 				pool = pool.Copy() // this goroutine keeps its own copy of the allocator value for all its calls
 			}
 			for m := 0; m < M; m++ {
@@ -359,7 +363,7 @@ func PoolConcurrent(pw *poolWriter, seed int64, ty string, ch, l, k, G, M, procs
 				logs[g] = append(logs[g], &PEvent{Op: "Get", G: g + 1, T: t, Res: "ok", View: obsOf(v), ptr: v.Raw(), Allocs: -1})
 				// sometimes hold a second buffer and return the first one first (get a, get b, put a, ..., put b)
 				var v2 View
-				if rng.Intn(3) == 0 {
+				if poolPairs || rng.Intn(3) == 0 {
 					v2 = pool.Get(byValue)
 					t = atomic.AddInt64(&ticket, 1)
 					logs[g] = append(logs[g], &PEvent{Op: "Get", G: g + 1, T: t, Res: "ok", View: obsOf(v2), ptr: v2.Raw(), Allocs: -1})
@@ -374,6 +378,9 @@ func PoolConcurrent(pw *poolWriter, seed int64, ty string, ch, l, k, G, M, procs
 				// fill with goroutine-specific stamps
 				x := int64(1 + (g*7+m)%100)
 				n := 1 + rng.Intn(3)
+				if poolPairs {
+					n = 1
+				}
 				for i := 0; i < n; i++ {
 					switch rng.Intn(3) {
 					case 0:
@@ -515,6 +522,15 @@ func runPoolProfile(profile string, thorough bool, seed int64, out string) (*Sta
 			st.Extra["reused_gets"] += r
 			st.Extra[fmt.Sprintf("G%d_M%d_P%d", c.G, c.M, c.P)] = g
 		}
+		// pairs: 8 goroutines that always hold two buffers, tight loop, allocator shared by pointer
+		poolPairs = true
+		{
+			g, r := PoolConcurrent(pw, seed+50, "int64", 1, 0, 4, 8, map[bool]int{false: 600, true: 6000}[thorough], 8, false)
+			st.Extra["gets"] += g
+			st.Extra["reused_gets"] += r
+			st.Extra["pairs_G8"] = g
+		}
+		poolPairs = false
 		// large buffers (>= 2^16 samples) with processor counts that do not divide the capacity
 		for i, pc := range []int{3, 7} {
 			g, r := PoolConcurrent(pw, seed+100+int64(i), []string{"int16", "MyFloat32"}[i], 2, 0, 32768, 3, 4, pc, false)
